@@ -504,6 +504,7 @@ func (s *subject) qcVariants(full bool) []variant[*hotstuffpb.QuorumCert] {
 		{"genesis-canonical", &hotstuffpb.QuorumCert{Hash: gen[:], View: 0}, true},
 		{"valid", hotstuffpb.QuorumCertToProto(lastQC), true},
 		{"valid-sig-no-hash", &hotstuffpb.QuorumCert{Sig: hotstuffpb.QuorumCertToProto(lastQC).Sig, View: uint64(last.View())}, false},
+		{"genesis-view0-but-signed", &hotstuffpb.QuorumCert{Sig: hotstuffpb.QuorumCertToProto(lastQC).Sig, View: 0, Hash: gen[:]}, false},
 	}
 	if !full {
 		return out
@@ -619,6 +620,18 @@ func (s *subject) enumerate() []wireCase {
 			for _, parent := range []variant[[]byte]{{"known", hashOf(last), false}, {"unknown", make([]byte, 32), false}, {"short", []byte{1}, false}} {
 				blk := &hotstuffpb.Block{Parent: parent.val, QC: q.val, View: v, Proposer: 2, Commands: &clientpb.Batch{Commands: []*clientpb.Command{{ClientID: 77, SequenceNumber: v, Data: []byte("d")}}}, Timestamp: timestamppb.New(time.Unix(1, 1))}
 				cs = append(cs, wireCase{"propose", fmt.Sprintf("proposal/qc=%s/view=%d/parent=%s", q.name, v, parent.name), &hotstuffpb.Proposal{Block: blk}, q.valid})
+			}
+		}
+	}
+	// every block-QC variant next to a genuine aggregate QC (whose high QC is the signature-free genesis certificate)
+	for _, a := range aggs {
+		if a.name != "valid" {
+			continue
+		}
+		for _, q := range qcsFull {
+			for _, parent := range []variant[[]byte]{{"known", hashOf(last), false}, {"genesis", hashOf(hotstuff.GetGenesis()), false}} {
+				blk := &hotstuffpb.Block{Parent: parent.val, QC: q.val, View: uint64(s.node.VS.View()), Proposer: 2, Commands: &clientpb.Batch{Commands: []*clientpb.Command{{ClientID: 78, SequenceNumber: 1, Data: []byte("d")}}}, Timestamp: timestamppb.New(time.Unix(1, 1))}
+				cs = append(cs, wireCase{"propose", fmt.Sprintf("proposal/qc=%s/parent=%s/aggqc=valid", q.name, parent.name), &hotstuffpb.Proposal{Block: blk, AggQC: a.val}, true})
 			}
 		}
 	}
